@@ -31,8 +31,13 @@ def run(ctx):
         if i % max(1, len(lines) // 3) == 2 and len(samples) < 3:
             samples.append(d)
     groups = {}
+    SETUP = ("could not establish the session before the fault", "no Select.req", "connect: ")
+    disturbed = 0
     for (ln, text, why) in res["rejections"]:
         d = json.loads(text)
+        if d["t"] != "backoff" and (d.get("max_jitter_ms", 0) > 30 or any(d.get("fault_msg", "").startswith(m) for m in SETUP)):
+            disturbed += 1      # the harness could not set the scenario up, or the scheduler stalled it: not an observation of the property
+            continue
         if d["t"] == "backoff":
             sig = "c11:BackoffStep"
             g = groups.setdefault(sig, dict(n=0, first=d, clause="BackoffStep"))
@@ -42,6 +47,8 @@ def run(ctx):
             sig = "c11:%s:%s:%s:%s" % (cl, d["role"], d["fault"]["where"], d["fault"]["mode"])
             g = groups.setdefault(sig, dict(n=0, first=d, clause=cl))
             g["n"] += 1
+    if disturbed > max(3, len(lines) // 10):
+        raise common.Inconclusive("%d of %d recovery scenarios could not be set up or were stalled by the scheduler (machine overloaded?)" % (disturbed, len(lines)))
     for sig, g in sorted(groups.items()):
         ctx.violation("recovery scenario rejected by prop/Recovery clause %s (%s), %d scenario(s); first: offset %s refused %s msg %r"
                       % (g["clause"], sig, g["n"], g["first"].get("fault", {}).get("offset"), g["first"].get("refused"), g["first"].get("fault_msg")),
@@ -51,7 +58,7 @@ def run(ctx):
                    evaluations=len(lines) + nbo, distinct_nontrivial=len(distinct),
                    rule="one evaluation = one fault scenario on a live connection (or one backoff grid point); distinct = distinct "
                         "(role, exchange, fault mode, byte offset, refused dials, backoff config); all non-trivial (each must detect, re-dial on schedule and recover)",
-                   fault_classes=classes, backoff_grid_points=nbo, harness_faults=stats["faults"], byte_offset_stride=3 if ctx.quick else 1,
+                   fault_classes=classes, backoff_grid_points=nbo, harness_faults=stats["faults"], disturbed_scenarios_not_judged=disturbed, byte_offset_stride=3 if ctx.quick else 1,
                    exhaustive=False, samples=samples, checker_cmd="vh backoff; vh recov; tlc OracleRecovery")
     ctx.assumptions += ["timers scaled down: T5 60..200 ms, initial backoff 15..40 ms, T6 150 ms, T7 200 ms, T8 100 ms, linktest 60 ms, write timeout 150 ms",
                         "dial-gap lower bound = schedule - 2 ms; upper bound = schedule + 200 ms + jitter",
